@@ -190,11 +190,40 @@ Theorem C08_moon_node_constants : forall t, C08_node.node_moon t =
   125.0445479 + (-1934.1362891 + (0.0020754 + (1 / 476441 - t / 60616000) * t) * t) * t.
 Proof. exact C08_node.node_moon_eq. Qed.
 
-(* the node polynomial written inside the nutation functions agrees with the Moon module's to
-   0.0024 degree within 20 centuries of J2000.0 *)
+(* [spec, Moon side bridged by C08_moon_node_closed_form; nutation side NOT bridged in this file]
+   node_nutation is the node polynomial written inside nutation_longitude / nutation_obliquity
+   (Coordinates.py:398, :473) with the translator's literals - the fifth fundamental argument of the
+   structure theorem of the nutation series (C08_nut_main.v, polyO, the same term); it agrees with the
+   Moon module's node polynomial to 0.0024 degree within 20 centuries of J2000.0 *)
 Theorem C08_node_agreement : forall t, -20 <= t <= 20 ->
-  Rabs ((125.04452 + t * (-1934.136261 + t * (0.0020708 + t / 450000))) - C08_node.node_moon t) <= 24 / 10000.
+  Rabs (C08_node.node_nutation t - C08_node.node_moon t) <= 24 / 10000.
 Proof. exact C08_node.node_agreement. Qed.
+Theorem C08_node_nutation_constants : forall t, C08_node.node_nutation t =
+  125.04452 + t * (-1934.136261 + t * (0.0020708 + t / 450000)).
+Proof. exact C08_node.node_nutation_eq. Qed.
+
+(* true obliquity without any assumption on nutation_obliquity: whatever it returns is handed to
+   Angle.__add__ together with the mean obliquity (an error - OutOfFuel included - propagates) *)
+Theorem C08_true_obliquity_structure : forall j, Rabs (uj j) <= 0.2 ->
+  f_true_obliquity Rops (VTuple [epoch j]) (VDict []) =
+  bind (f_nutation_obliquity Rops (VTuple [epoch j]) (VDict []))
+       (fun de => Angle___add__ Rops (ang (eps0 + laskar (uj j) / 3600)) de).
+Proof. exact true_obliquity_structure. Qed.
+
+(* the reflection theorems are conditional on the documented result shape of the Earth callee; the
+   other case: an error of the callee comes out unchanged *)
+Theorem C08_sun_errors_propagate : forall jde flag x,
+  (Earth_geometric_heliocentric_position Rops (epoch jde) (VBool flag) = VErr x ->
+   Sun_geometric_geocentric_position Rops (epoch jde) (VBool flag) = VErr x) /\
+  (Earth_apparent_heliocentric_position Rops (epoch jde) (VBool flag) = VErr x ->
+   Sun_apparent_geocentric_position Rops (epoch jde) (VBool flag) = VErr x).
+Proof. intros jde flag x. exact (conj (sun_geometric_error jde flag x) (sun_apparent_error jde flag x)). Qed.
+
+(* the 2 arcsec clause for the generated equinox rotation against the rotation Meeus prescribes
+   (same polynomials, T = 0), and its refutation: epoch 1000, equinox 2300, x axis *)
+Definition C08_equinox_frame_full : Prop := C08_equinox.equinox_frame_full.
+Theorem C08_equinox_frame_refuted : ~ C08_equinox_frame_full.
+Proof. exact C08_equinox.equinox_frame_refuted. Qed.
 
 Redirect "C08_rectangular_j2000_norm.assumptions" Print Assumptions C08_rectangular_j2000_norm.
 Redirect "C08_mean_obliquity_polynomial.assumptions" Print Assumptions C08_mean_obliquity_polynomial.
@@ -218,3 +247,7 @@ Redirect "C08_apparent_longitude_coarse_closed_form.assumptions" Print Assumptio
 Redirect "C08_moon_node_closed_form.assumptions" Print Assumptions C08_moon_node_closed_form.
 Redirect "C08_moon_node_constants.assumptions" Print Assumptions C08_moon_node_constants.
 Redirect "C08_node_agreement.assumptions" Print Assumptions C08_node_agreement.
+Redirect "C08_true_obliquity_structure.assumptions" Print Assumptions C08_true_obliquity_structure.
+Redirect "C08_sun_errors_propagate.assumptions" Print Assumptions C08_sun_errors_propagate.
+Redirect "C08_equinox_frame_refuted.assumptions" Print Assumptions C08_equinox_frame_refuted.
+Redirect "C08_node_nutation_constants.assumptions" Print Assumptions C08_node_nutation_constants.
